@@ -20,7 +20,7 @@
 static unsigned long long n_trips = 0, n_nontrivial = 0;
 
 #ifndef MC_FLAVOR_FAST
-enum { T_I8, T_U8, T_I16, T_U16, T_I32, T_U32, T_I64, T_U64, T_BOOL, T_TEXT, T_BLOCK, T_FLOAT, T_DOUBLE, T_AI32, T_AU32, T_AI64, T_AU64, T_AF, T_AD, T_BLOCK_INT };
+enum { T_I8, T_U8, T_I16, T_U16, T_I32, T_U32, T_I64, T_U64, T_BOOL, T_TEXT, T_BLOCK, T_FLOAT, T_DOUBLE, T_AI32, T_AU32, T_AI64, T_AU64, T_AF, T_AD, T_BLOCK_INT, T_SBLOCK_INT };
 static int job, j_base;
 static uint64_t j_u; static const char * j_text; static const void * j_blk; static size_t j_len;
 static float j_f; static double j_d;
@@ -43,6 +43,13 @@ static scpi_result_t h_x(scpi_t * c) {
         case T_TEXT: SCPI_ResultText(c, j_text); break;
         case T_BLOCK: SCPI_ResultArbitraryBlock(c, j_blk, j_len); break;
         case T_BLOCK_INT: SCPI_ResultArbitraryBlock(c, j_blk, j_len); SCPI_ResultInt32(c, -1000); SCPI_ResultText(c, "t"); break;
+        case T_SBLOCK_INT: {    /* the same block streamed: header, then the data in pieces of j_base bytes */
+            size_t off = 0, step = j_base > 0 ? (size_t) j_base : 1;
+            SCPI_ResultArbitraryBlockHeader(c, j_len);
+            if (j_len == 0) SCPI_ResultArbitraryBlockData(c, j_blk, 0);      /* an empty block is completed by its (empty) data call, as in C17 */
+            while (off < j_len) { size_t nn = j_len - off < step ? j_len - off : step; SCPI_ResultArbitraryBlockData(c, j_blk + off, nn); off += nn; }
+            SCPI_ResultInt32(c, -1000); SCPI_ResultText(c, "t"); break;
+        }
         case T_FLOAT: SCPI_ResultFloat(c, j_f); break;
         case T_DOUBLE: SCPI_ResultDouble(c, j_d); break;
         case T_AI32: { int32_t a[8]; for (i = 0; i < j_n; i++) a[i] = (int32_t) j_arr[i]; SCPI_ResultArrayInt32(c, a, j_n, SCPI_FORMAT_ASCII); break; }
@@ -55,9 +62,24 @@ static scpi_result_t h_x(scpi_t * c) {
     return SCPI_RES_OK;
 }
 
+static int via_to = 0;      /* 1: decode with SCPI_Parameter + the SCPI_ParamToXxx twin of the reader */
 static scpi_result_t h_y(scpi_t * c) {
     size_t i;
     d_ok = 0;
+    if (via_to) {
+        scpi_parameter_t p;
+        memset(&p, 0, sizeof p);
+        if (!SCPI_Parameter(c, &p, TRUE)) return SCPI_RES_OK;
+        switch (job) {
+            case T_I8: case T_I16: case T_I32: { int32_t v = 0; d_ok = SCPI_ParamToInt32(c, &p, &v); d_u = (uint64_t) (int64_t) v; break; }
+            case T_U8: case T_U16: case T_U32: { uint32_t v = 0; d_ok = SCPI_ParamToUInt32(c, &p, &v); d_u = v; break; }
+            case T_I64: { int64_t v = 0; d_ok = SCPI_ParamToInt64(c, &p, &v); d_u = (uint64_t) v; break; }
+            case T_U64: { uint64_t v = 0; d_ok = SCPI_ParamToUInt64(c, &p, &v); d_u = v; break; }
+            case T_FLOAT: d_ok = SCPI_ParamToFloat(c, &p, &d_f); break;
+            default: d_ok = SCPI_ParamToDouble(c, &p, &d_d); break;
+        }
+        return SCPI_RES_OK;
+    }
     switch (job) {
         case T_I8: case T_I16: case T_I32: { int32_t v = 0; d_ok = SCPI_ParamInt32(c, &v, TRUE); d_u = (uint64_t) (int64_t) v; break; }
         case T_U8: case T_U16: case T_U32: { uint32_t v = 0; d_ok = SCPI_ParamUInt32(c, &v, TRUE); d_u = v; break; }
@@ -66,7 +88,7 @@ static scpi_result_t h_y(scpi_t * c) {
         case T_BOOL: { scpi_bool_t v = 0; d_ok = SCPI_ParamBool(c, &v, TRUE); d_u = v ? 1 : 0; break; }
         case T_TEXT: d_ok = SCPI_ParamCopyText(c, d_text, sizeof d_text, &d_len, TRUE); break;
         case T_BLOCK: { const char * p = NULL; size_t l = 0; d_ok = SCPI_ParamArbitraryBlock(c, &p, &l, TRUE); if (d_ok) { d_len = l < sizeof d_text ? l : sizeof d_text; memcpy(d_text, p, d_len); d_len = l; } break; }
-        case T_BLOCK_INT: { const char * p = NULL; size_t l = 0; int32_t v = 0; char t[8]; size_t tl = 0; d_ok = SCPI_ParamArbitraryBlock(c, &p, &l, TRUE) && SCPI_ParamInt32(c, &v, TRUE) && SCPI_ParamCopyText(c, t, sizeof t, &tl, TRUE); if (d_ok) { d_len = l; memcpy(d_text, p, l < sizeof d_text ? l : sizeof d_text); d_u = (uint64_t) (int64_t) v; if (tl != 1 || t[0] != 't') d_ok = 0; } break; }
+        case T_BLOCK_INT: case T_SBLOCK_INT: { const char * p = NULL; size_t l = 0; int32_t v = 0; char t[8]; size_t tl = 0; d_ok = SCPI_ParamArbitraryBlock(c, &p, &l, TRUE) && SCPI_ParamInt32(c, &v, TRUE) && SCPI_ParamCopyText(c, t, sizeof t, &tl, TRUE); if (d_ok) { d_len = l; memcpy(d_text, p, l < sizeof d_text ? l : sizeof d_text); d_u = (uint64_t) (int64_t) v; if (tl != 1 || t[0] != 't') d_ok = 0; } break; }
         case T_FLOAT: d_ok = SCPI_ParamFloat(c, &d_f, TRUE); break;
         case T_DOUBLE: d_ok = SCPI_ParamDouble(c, &d_d, TRUE); break;
         case T_AI32: { int32_t a[8]; d_ok = SCPI_ParamArrayInt32(c, a, 8, &d_n, SCPI_FORMAT_ASCII, j_n ? TRUE : FALSE); for (i = 0; i < d_n && i < 8; i++) d_arr[i] = (uint64_t) (int64_t) a[i]; break; }
@@ -101,6 +123,23 @@ static int trip(const char * what) {
         mc_viol(sig, "%s: response data [%s] sent back as a parameter: decoder result %d, errors %d (first %d)", what, mc_e(resp, respn < 200 ? respn : 200), d_ok, tc_nerr, tc_nerr ? tc_errs[0] : 0);
         if (T.ctx.buffer.position) tc_reinit(&T, cmds);
         return 0;
+    }
+    if (job <= T_U64 || job == T_FLOAT || job == T_DOUBLE) {
+        /* the same response decoded by the other public route: SCPI_Parameter + SCPI_ParamToXxx must deliver the same value */
+        uint64_t u1 = d_u; float f1 = d_f; double d1 = d_d;
+        int same;
+        via_to = 1; tr_reset(); d_ok = -1;
+        SCPI_Input(&T.ctx, msg, (int) ml);
+        via_to = 0;
+        same = job == T_FLOAT ? !memcmp(&f1, &d_f, sizeof f1) : job == T_DOUBLE ? !memcmp(&d1, &d_d, sizeof d1) : u1 == d_u;
+        if (d_ok != 1 || tc_nerr || !same) {
+            char sig[96];
+            snprintf(sig, sizeof sig, "c07/SCPI_ParamTo-differs/%s", what);
+            mc_viol(sig, "%s: response data [%s]: SCPI_Parameter + SCPI_ParamToXxx result %d, errors %d, value 0x%llx / %.17g; the SCPI_ParamXxx reader delivered 0x%llx / %.17g", what, mc_e(resp, respn < 200 ? respn : 200), d_ok, tc_nerr, (unsigned long long) d_u, job == T_FLOAT ? (double) d_f : d_d, (unsigned long long) u1, job == T_FLOAT ? (double) f1 : d1);
+            if (T.ctx.buffer.position) tc_reinit(&T, cmds);
+            return 0;
+        }
+        d_u = u1; d_f = f1; d_d = d1;
     }
     return 1;
 }
@@ -309,6 +348,18 @@ int main(int argc, char ** argv) {
             if (d_len != (size_t) L || memcmp(d_text, blk2, (size_t) L) || (int64_t) d_u != -1000) { mc_viol("c07/value/block-then-items", "block of %d bytes, -1000, \"t\" -> [%s] -> block of %d bytes, %lld", L, mc_e(resp, respn), (int) d_len, (long long) (int64_t) d_u); continue; }
             n_nontrivial++;
         }
+        /* the same with the block streamed (header + data in pieces of 1, 3, 7, 64 bytes) */
+        { int k; for (L = 0; L <= 40; L++) for (b = 0; b < 3; b++) for (k = 0; k < 4; k++) {
+            static unsigned char blk3[64];
+            static const int steps[4] = {1, 3, 7, 64};
+            if (!MC_CASE()) continue;
+            for (i = 0; i < L; i++) blk3[i] = (unsigned char) (b == 0 ? ',' : b == 1 ? '"' : i);
+            job = T_SBLOCK_INT; j_blk = blk3; j_len = (size_t) L; j_base = steps[k];
+            mc_case_tag = "streamed-block+int"; mc_case_i[0] = L; mc_case_i[1] = b; mc_case_i[2] = steps[k];
+            if (!trip("streamed-block-then-items")) continue;
+            if (d_len != (size_t) L || memcmp(d_text, blk3, (size_t) L) || (int64_t) d_u != -1000) { mc_viol("c07/value/streamed-block-then-items", "block of %d bytes streamed in pieces of %d, -1000, \"t\" -> [%s] -> block of %d bytes, %lld", L, steps[k], mc_e(resp, respn), (int) d_len, (long long) (int64_t) d_u); continue; }
+            n_nontrivial++;
+        } }
         /* floating point: mantissas d.ddd x every decimal exponent, powers of two, boundaries */
         {
             static const char * mant[] = {"1", "1.5", "9.99999", "9.999995", "1.00000000000001", "9.99999999999999", "1.23456789012345", "4.5", "1.0000005", "5.55555555555555", "1.999999", "7.00000000000007", "9.999999999999995", "2.5000001"};
